@@ -5273,6 +5273,52 @@ class PyCdlib:
                 # If the directory would be deeper than ISO9660 allows, then we
                 # are going to have to make a relocated entry for this record.
 
+                # Since we are moving the entry underneath the RR_MOVED
+                # directory, there is now the chance of a name collision (this
+                # can't happen without relocation since _add_child_to_dr() below
+                # won't allow duplicate names).  Check for that here and
+                # generate a new name.  The new name has to obey the length
+                # limit of the interchange level like the original one (8
+                # characters at level 1, 207 otherwise), so the original name
+                # is shortened to make room for the suffix if necessary.  (A
+                # relocation directory that does not exist yet has no children
+                # to collide with.)
+                maxlen = 207
+                if self.interchange_level == 1:
+                    maxlen = 8
+                index = 0
+                while True:
+                    for child in self._rr_moved_record.children:
+                        if child.file_ident == iso9660_name:
+                            # Python 3.4 doesn't support substitution with a byte
+                            # array, so we do it as a string and encode to bytes.
+                            suffix = ('%03d' % (index)).encode()
+                            iso9660_name = name[:maxlen - len(suffix)] + suffix
+                            index += 1
+                            break
+                    else:
+                        break
+
+                # Creating the relocation directory and the first of the two
+                # records below already changes the ISO, so find out before
+                # that whether both records can be built at all (the names may
+                # leave no room for the Rock Ridge entries).  The parent of a
+                # record plays no part in that, so the relocation directory
+                # need not exist for this.
+                dr.DirectoryRecord().check_new_dir(self.pvd, name, parent,
+                                                   self.pvd.sequence_number(),
+                                                   self.rock_ridge, new_rr_name,
+                                                   self.logical_block_size,
+                                                   True, False, self.xa,
+                                                   file_mode, time.time())
+                dr.DirectoryRecord().check_new_dir(self.pvd, iso9660_name,
+                                                   parent,
+                                                   self.pvd.sequence_number(),
+                                                   self.rock_ridge, new_rr_name,
+                                                   self.logical_block_size,
+                                                   False, True, self.xa,
+                                                   file_mode, time.time())
+
                 num_bytes_to_add += self._find_or_create_rr_moved()
 
                 # With a depth of 8, we have to add the directory both to the
@@ -5294,30 +5340,6 @@ class PyCdlib:
                 relocated = True
                 orig_parent = parent
                 parent = self._rr_moved_record
-
-                # Since we are moving the entry underneath the RR_MOVED
-                # directory, there is now the chance of a name collision (this
-                # can't happen without relocation since _add_child_to_dr() below
-                # won't allow duplicate names).  Check for that here and
-                # generate a new name.  The new name has to obey the length
-                # limit of the interchange level like the original one (8
-                # characters at level 1, 207 otherwise), so the original name
-                # is shortened to make room for the suffix if necessary.
-                maxlen = 207
-                if self.interchange_level == 1:
-                    maxlen = 8
-                index = 0
-                while True:
-                    for child in self._rr_moved_record.children:
-                        if child.file_ident == iso9660_name:
-                            # Python 3.4 doesn't support substitution with a byte
-                            # array, so we do it as a string and encode to bytes.
-                            suffix = ('%03d' % (index)).encode()
-                            iso9660_name = name[:maxlen - len(suffix)] + suffix
-                            index += 1
-                            break
-                    else:
-                        break
 
             rec = dr.DirectoryRecord()
             rec.new_dir(self.pvd, iso9660_name, parent,
